@@ -58,7 +58,19 @@ impl QplibFile {
     pub fn from_reader(reader: impl Read) -> Result<Self> {
         // let buf = flate2::read::GzDecoder::new(reader);
         let buf = io::BufReader::new(reader);
-        Self::from_lines(buf.lines().map_while(|x| x.ok()))
+        // Stop at the first I/O error and report it, rather than taking it for the end of the file.
+        let mut io_error = None;
+        let parsed = Self::from_lines(buf.lines().map_while(|line| match line {
+            Ok(line) => Some(line),
+            Err(e) => {
+                io_error = Some(e);
+                None
+            }
+        }));
+        match io_error {
+            Some(e) => Err(e).context("Failed to read QPLIB data"),
+            None => parsed,
+        }
     }
 
     pub fn from_lines(lines: impl Iterator<Item = String>) -> Result<Self> {
